@@ -448,6 +448,16 @@ func (c *consumerGroup) removeConsumer(cons *consumer) {
 				heap.Remove(subscribers, i)
 			}
 		}
+		// Forget the stream if it has no subscribers left, as if nobody had
+		// ever subscribed to it. A group restored from a snapshot is rebuilt
+		// from its members and does not know such a stream either, so keeping
+		// it would make the group epoch depend on whether the server restored
+		// a snapshot: deleting the stream later moves the epoch only for
+		// groups that know it.
+		if subscribers.Len() == 0 {
+			delete(c.subscribers, stream)
+			return
+		}
 		// Rebalance the stream if the consumer being removed had assignments
 		// for it.
 		if _, ok := cons.assignments[stream]; ok {
